@@ -222,7 +222,8 @@ class URLInfo(object):
 
         info.host = host
         info.hostname = hostname
-        info.port = port or RELATIVE_SCHEME_DEFAULT_PORTS[scheme]
+        info.port = port if port is not None \
+            else RELATIVE_SCHEME_DEFAULT_PORTS[scheme]
 
         info.resource = resource
 
